@@ -120,7 +120,7 @@ claim("C19", "Coq proofs that cel accessors depend only on (frame, layer) and th
       "DESIGN.md section 5, C19")
 claim("C16", "Coq semantics of call histories and of threads sharing an immutable value (scheduler-independence theorem) + repeated/concurrent/cross-profile observation run",
       "Theorems C16_interleave / C16_schedule_independent (under any scheduler every thread that finishes holds exactly the results of running its calls alone; two "
-      "complete schedules agree), C16_history_pointwise / C16_history_permutation (a call's result does not depend on its position in a history); they are simple by "
+      "complete schedules agree), C16_finished_results / C16_interleave_total / C16_finished_stable (a finished run holds the sequential results; for every family of call lists a finishing schedule exists, so the premises are never vacuous; a finished run is a fixed point of further scheduling), C16_history_pointwise / C16_history_permutation (a call's result does not depend on its position in a history); they are simple by "
       "design: the model has no mutable component, and the content of C16 is that the code refines it, which the run checks: observations repeated, after a reload, "
       "from 16 threads on one shared reference, in release and dev builds, all equal and equal to the model; the Send + Sync assertion binary must compile.",
       "Partial: Send/Sync is decided by rustc, not by Coq; data-race freedom is observed, not proved; profile independence rests on C04/C05 (no overflow site reachable) plus the dev-vs-release comparison.",
